@@ -105,6 +105,26 @@ fn preorder(s: &Shape, out: &mut Vec<i128>) {
 
 fn bits(x: f64) -> i128 { if x.is_nan() { 9221120237041090560 } else { x.to_bits() as i128 } }
 
+// VecDeque is a ring buffer: the same logical sequence can be stored contiguously or wrapped around the end of its
+// storage (after push_front / rotation).  Even lengths are built WRAPPED (second half pushed back, first half pushed
+// to the front), odd lengths contiguously, so both representations are exercised.
+fn mk_deque<T>(items: Vec<T>) -> std::collections::VecDeque<T> {
+    let n = items.len();
+    if n < 2 || n % 2 == 1 {
+        return items.into_iter().collect();
+    }
+    let mut front = items;
+    let back = front.split_off(n / 2);
+    let mut d = std::collections::VecDeque::with_capacity(n);
+    for x in back {
+        d.push_back(x);
+    }
+    for x in front.into_iter().rev() {
+        d.push_front(x);
+    }
+    d
+}
+
 enum Cont { Slice(Box<[C]>), V(Vec<C>), D(std::collections::VecDeque<C>), B(std::collections::BTreeMap<usize, C>), H(HashMap<usize, C>) }
 
 macro_rules! with_cont {
@@ -151,7 +171,7 @@ pub fn run(args: &[i128], cont: usize) -> Vec<i128> {
             let container = match cont {
                 0 => Cont::Slice(clones.into_boxed_slice()),
                 1 => Cont::V(clones),
-                2 => Cont::D(clones.into_iter().collect()),
+                2 => Cont::D(mk_deque(clones)),
                 3 => Cont::B(clones.into_iter().enumerate().collect()),
                 _ => Cont::H(clones.into_iter().enumerate().collect()),
             };
